@@ -16,7 +16,7 @@ import re
 from mc.drivers import bpm
 from mc.drivers.scenarios import SCENARIOS
 from mc.engine import e2
-from mc.engine.core import Collector, Result, Violation
+from mc.engine.core import Collector, Result, Violation, jstrict
 
 PLAN = {
     "quick": [("M1", 3), ("M2", 3), ("M3", 3), ("M4", 3), ("M5", 3), ("M4b", 4)],
@@ -189,7 +189,7 @@ def check_model(h):
             if isinstance(t, model.Apply) and t.symbol == "compat.meta_json":
                 got_meta[t.args[0].value] = t.args[1].value
         exp_meta = {k: json.dumps(v) for k, v in h[c].metadata.items()}
-        if {k: json.loads(v) for k, v in got_meta.items()} != {k: json.loads(v) for k, v in exp_meta.items()}:
+        if jstrict({k: json.loads(v) for k, v in got_meta.items()}) != jstrict({k: json.loads(v) for k, v in exp_meta.items()}):
             bad("metadata", f"node {c.idx}: metadata {dict(h[c].metadata)} exported as {got_meta}")
         # symbols and applications
         if isinstance(op, (ops.FuncDefn, ops.FuncDecl)):
